@@ -12,7 +12,7 @@ import (
 func init() {
 	register(&Prop{
 		ID:             "C22",
-		Pkgs:           []string{"service/transaction", "service/txresult", "common/codec"},
+		Pkgs:           []string{"service/transaction", "service/txresult", "common/codec", "common/trie/ompt"},
 		Run:            runC22,
 		MinObligations: 16,
 		Technique:      "static analysis: provenance of every trie key used by the list writers, lookups, proofs and the iterator's index decoder (one codec, one Go type, on every path), index agreement between key and stored item in the build loops, loop no-bypass",
@@ -366,12 +366,22 @@ func runC22Extra(c *Ctx) {
 		sub := &Ctx{Prop: c.Prop, Tier: c.Tier, L: c.L}
 		runC23(sub)
 		for _, o := range sub.obs {
-			if strings.HasPrefix(o.Rule, "C23.int-converters") || strings.HasPrefix(o.Rule, "C23.narrowing") {
+			if strings.HasPrefix(o.Rule, "C23.int-converters") || strings.HasPrefix(o.Rule, "C23.narrowing") || strings.HasPrefix(o.Rule, "C23.tag-partition") {
 				o2 := *o
 				o2.Rule = "C22.key-encoding/" + strings.TrimPrefix(o.Rule, "C23.")
 				c.obs = append(c.obs, &o2)
 			}
 		}
 		c.callSites += sub.callSites
+		// the iteration order of the lists is the trie's: children visited from the lowest nibble (rule of C17)
+		sub2 := &Ctx{Prop: c.Prop, Tier: c.Tier, L: c.L, Sub: true}
+		runC17(sub2)
+		for _, o := range sub2.obs {
+			if strings.HasPrefix(o.Rule, "C17.iteration-order") || strings.HasPrefix(o.Rule, "C17.filter-prefix") {
+				o2 := *o
+				o2.Rule = "C22.iteration/" + strings.TrimPrefix(o.Rule, "C17.")
+				c.obs = append(c.obs, &o2)
+			}
+		}
 	}
 }
